@@ -14,7 +14,9 @@ pub fn dispatch(op: &str, req: &Value) -> Option<R> {
 }
 
 fn privkey(req: &Value) -> R {
-    let key = if let Some(w) = st_opt(req, "wif") {
+    let key = if bo(req, "random") {
+        PrivateKey::from_random()
+    } else if let Some(w) = st_opt(req, "wif") {
         PrivateKey::from_wif(w).map_err(lib)?
     } else if let Some(hs) = st_opt(req, "hex_str") {
         PrivateKey::from_hex(hs).map_err(lib)?
@@ -64,6 +66,17 @@ fn pubkey(req: &Value) -> R {
     }))
 }
 
+fn preset(name: &str) -> Option<ChainParams> {
+    Some(match name {
+        "mainnet" => ChainParams::mainnet(),
+        "testnet" => ChainParams::testnet(),
+        "regtest" => ChainParams::regtest(),
+        "stn" => ChainParams::stn(),
+        "default" => ChainParams::default(),
+        _ => return None,
+    })
+}
+
 fn chain(p: u64) -> ChainParams {
     ChainParams::new(p as u8, 5, 0x80, 0x0488b21e, 0x0488ade4, 0xe3e1f3e8)
 }
@@ -85,7 +98,17 @@ fn addr(req: &Value) -> R {
         Some(p) => a.set_chain_params(&chain(p)).map_err(lib)?,
         None => a,
     };
+    let mut preset_prefix = Value::Null;
+    let a = match st_opt(req, "preset") {
+        Some(n) => {
+            let cp = preset(n).ok_or_else(|| drv(format!("preset {}", n)))?;
+            preset_prefix = json!(cp.p2pkh);
+            a.set_chain_params(&cp).map_err(lib)?
+        }
+        None => a,
+    };
     let mut o = json!({
+        "preset_prefix": preset_prefix,
         "string": sub(|| a.to_string(), |s| json!(s)),
         "hash": h(&a.to_pubkey_hash()),
         "hash_hex_eq": a.to_pubkey_hash_hex() == hex::encode(a.to_pubkey_hash()),
@@ -141,6 +164,11 @@ fn bip32(req: &Value) -> R {
         K::Prv(ExtendedPrivateKey::from_string(s).map_err(lib)?)
     } else if let Some(s) = st_opt(start, "xpub") {
         K::Pub(ExtendedPublicKey::from_string(s).map_err(lib)?)
+    } else if let Some(which) = st_opt(start, "random") {
+        match which {
+            "prv" => K::Prv(ExtendedPrivateKey::from_random().map_err(lib)?),
+            _ => K::Pub(ExtendedPublicKey::from_random().map_err(lib)?),
+        }
     } else if let Some(p) = start.get("new_prv") {
         let k = PrivateKey::from_bytes(&hx(p, "key")?).map_err(|e| drv(format!("new_prv key: {}", e)))?;
         let fp = hx_opt(p, "fp")?;
